@@ -228,7 +228,8 @@ def enum_type(t, rng: random.Random, n: int) -> List[Any]:
     if isinstance(t, TOpt):
         return [{"t": "none"}] + enum_type(t.t, rng, n - 1)
     if isinstance(t, TRec):
-        return []      # records need a registered enumerator (contract.path_hints['enum'])
+        r = C.REG.records.get(t.name)
+        return [{"t": "rec", "cls": t.name, "fields": f} for f in (r.enum if r else [])]
     return []
 
 
